@@ -96,15 +96,37 @@ func (f *c16Finder) ListPodsByWorkloads([]types.UID, string, *metav1.LabelSelect
 
 type c16PodS struct {
 	id, node, ns, wl int
-	ready, ann       bool
+	ready, ann, term bool
+	phase            int // 0 Running, 1 Pending, 2 Succeeded, 3 Failed
 }
 type c16JobS struct{ id, pod, ns int }
+
+// per-workload limit forms and gate switches of MigrationControllerArgs
+type c16Cfg struct {
+	mg, mn, ms, mm, mu int
+	mmKind, muKind     int // 0 nil / Int, 1 String "<v>%", 2 malformed String
+	skip               []int
+	skipCER            bool
+}
+
+// model gate codes (lean/KoordVerif/Model/C16Arb.lean gateSkipped)
+var c16GateNames = map[int]config.EvictionGate{
+	1: config.EvictionGateMaxUnavailablePerWorkload, 2: config.EvictionGateMaxMigratingPerWorkload,
+	3: config.EvictionGateMaxMigratingPerNode, 4: config.EvictionGateMaxMigratingPerNamespace,
+	5: config.EvictionGateMaxMigratingGlobally, 6: config.EvictionGateExpectedReplicas, 7: config.EvictionGateBarePods,
+	8: config.EvictionGatePVC, 9: config.EvictionGateLocalStorage, 10: config.EvictionGateSystemCritical,
+	11: config.EvictionGatePriorityThreshold, 12: config.EvictionGateLabelSelector, 13: config.EvictionGateNamespaces,
+	14: config.EvictionGateNodeFit,
+}
+
+const c16Finalizer = "verif.koordinator.sh/hold"
 
 type c16World struct {
 	h       *vHarness
 	c       client.Client
 	a       *arbitratorImpl
 	hd      interface {
+		Create(context.Context, event.CreateEvent, workqueue.TypedRateLimitingInterface[reconcile.Request])
 		Update(context.Context, event.UpdateEvent, workqueue.TypedRateLimitingInterface[reconcile.Request])
 	}
 	q        workqueue.TypedRateLimitingInterface[reconcile.Request]
@@ -113,7 +135,20 @@ type c16World struct {
 	pods     map[int]*c16PodS
 	jobs     map[int]*c16JobS
 	replicas map[int]int
-	mg, mn, ms, mm, mu int
+	c16Cfg
+	badStr string
+	// jobs that were pending + annotated "passed" when the controller restarted and have not been
+	// re-arbitrated since: the new arbitrator holds them in its waiting collection again
+	stale map[int]bool
+}
+
+func (w *c16World) skipped(code int) bool {
+	for _, c := range w.skip {
+		if c == code {
+			return true
+		}
+	}
+	return false
 }
 
 func c16PodName(id int) string { return fmt.Sprintf("p%d", id) }
@@ -152,10 +187,21 @@ func c16IntStr(v int) *intstr.IntOrString {
 	x := intstr.FromInt(v)
 	return &x
 }
+func c16IntStrK(kind, v int, bad string) *intstr.IntOrString {
+	switch kind {
+	case 1:
+		x := intstr.FromString(fmt.Sprintf("%d%%", v))
+		return &x
+	case 2:
+		x := intstr.FromString(bad)
+		return &x
+	}
+	return c16IntStr(v)
+}
 
-func c16NewWorld(h *vHarness, mg, mn, ms, mm, mu int, replicas map[int]int) *c16World {
+func c16NewWorld(h *vHarness, cfg c16Cfg, badStr string, replicas map[int]int) *c16World {
 	w := &c16World{h: h, failUpd: map[string]bool{}, pods: map[int]*c16PodS{}, jobs: map[int]*c16JobS{}, replicas: replicas,
-		mg: mg, mn: mn, ms: ms, mm: mm, mu: mu}
+		c16Cfg: cfg, badStr: badStr, stale: map[int]bool{}}
 	scheme := runtime.NewScheme()
 	_ = v1alpha1.AddToScheme(scheme)
 	_ = clientgoscheme.AddToScheme(scheme)
@@ -193,12 +239,26 @@ func c16NewWorld(h *vHarness, mg, mn, ms, mm, mu int, replicas map[int]int) *c16
 				return c.Update(ctx, obj, opts...)
 			},
 		}).Build()
+	w.newArb()
+	w.q = workqueue.NewTypedRateLimitingQueue[reconcile.Request](workqueue.NewTypedItemExponentialFailureRateLimiter[reconcile.Request](time.Millisecond, time.Second))
+	return w
+}
+
+// newArb builds a fresh arbitratorImpl + filter (empty waiting collection, empty arbitrated map) over the
+// world's API state, as a (re)started controller does.
+func (w *c16World) newArb() {
 	args := &config.MigrationControllerArgs{
-		MaxMigratingGlobally: c16I32(mg), MaxMigratingPerNode: c16I32(mn), MaxMigratingPerNamespace: c16I32(ms),
-		MaxMigratingPerWorkload: c16IntStr(mm), MaxUnavailablePerWorkload: c16IntStr(mu),
+		MaxMigratingGlobally: c16I32(w.mg), MaxMigratingPerNode: c16I32(w.mn), MaxMigratingPerNamespace: c16I32(w.ms),
+		MaxMigratingPerWorkload: c16IntStrK(w.mmKind, w.mm, w.badStr), MaxUnavailablePerWorkload: c16IntStrK(w.muKind, w.mu, w.badStr),
+	}
+	if w.skipCER {
+		args.SkipCheckExpectedReplicas = ptr.To(true)
+	}
+	for _, g := range w.skip {
+		args.SkipEvictionGates = append(args.SkipEvictionGates, c16GateNames[g])
 	}
 	rep := map[string]int32{}
-	for k, v := range replicas {
+	for k, v := range w.replicas {
 		rep[fmt.Sprintf("w%d", k)] = int32(v)
 	}
 	f := &filter{client: w.c, args: args, controllerFinder: &c16Finder{c: w.c, replicas: rep}, clock: clock.RealClock{},
@@ -227,15 +287,14 @@ func c16NewWorld(h *vHarness, mg, mn, ms, mm, mu int, replicas map[int]int) *c16
 		filter: f, client: w.c, eventRecorder: &events.FakeRecorder{}, mu: sync.Mutex{},
 	}
 	w.hd = NewHandler(w.a, w.c).(*arbitrationHandler)
-	w.q = workqueue.NewTypedRateLimitingQueue[reconcile.Request](workqueue.NewTypedItemExponentialFailureRateLimiter[reconcile.Request](time.Millisecond, time.Second))
-	return w
 }
 
 func (w *c16World) mkPod(p *c16PodS) *corev1.Pod {
 	pod := &corev1.Pod{
-		ObjectMeta: metav1.ObjectMeta{Name: c16PodName(p.id), Namespace: c16Ns(p.ns), UID: types.UID(fmt.Sprintf("u%d", p.id)), Annotations: map[string]string{}},
-		Spec:       corev1.PodSpec{Priority: ptr.To(int32(0))},
-		Status:     corev1.PodStatus{Phase: corev1.PodRunning},
+		ObjectMeta: metav1.ObjectMeta{Name: c16PodName(p.id), Namespace: c16Ns(p.ns), UID: types.UID(fmt.Sprintf("u%d", p.id)), Annotations: map[string]string{},
+			Finalizers: []string{c16Finalizer}}, // lets Delete leave a terminating pod (deletionTimestamp set) behind
+		Spec:   corev1.PodSpec{Priority: ptr.To(int32(0))},
+		Status: corev1.PodStatus{Phase: []corev1.PodPhase{corev1.PodRunning, corev1.PodPending, corev1.PodSucceeded, corev1.PodFailed}[p.phase]},
 	}
 	if p.node > 0 {
 		pod.Spec.NodeName = fmt.Sprintf("n%d", p.node)
@@ -263,8 +322,8 @@ func (w *c16World) mkJob(id, pod, ns int) *v1alpha1.PodMigrationJob {
 }
 
 type c16JobView struct {
-	id, pod, ns, phase  int
-	ann, arb, waiting bool
+	id, pod, ns, phase       int
+	ann, arb, waiting, stale bool
 }
 
 func (w *c16World) view() []c16JobView {
@@ -282,7 +341,8 @@ func (w *c16World) view() []c16JobView {
 		_, waiting := w.a.waitingCollection[j.UID]
 		w.a.mu.Unlock()
 		out = append(out, c16JobView{id: id, pod: s.pod, ns: s.ns, phase: c16PhaseCode(j.Status.Phase),
-			ann: j.Annotations[AnnotationPassedArbitration] == "true", arb: w.a.filter.checkJobPassedArbitration(j.UID), waiting: waiting})
+			ann: j.Annotations[AnnotationPassedArbitration] == "true", arb: w.a.filter.checkJobPassedArbitration(j.UID), waiting: waiting,
+			stale: w.stale[id]})
 	}
 	sort.Slice(out, func(a, b int) bool { return out[a].id < out[b].id })
 	return out
@@ -296,9 +356,34 @@ func (w *c16World) emitState(v []c16JobView) {
 
 // ---- the property oracle (independent of the filter code): counts over API-visible state
 
-func c16Live(j c16JobView) bool { return j.phase == 2 || ((j.phase == 0 || j.phase == 1) && j.ann) }
+// running, or pending and passed arbitration.  A "passed" annotation that predates a controller restart and has
+// not been confirmed by the new arbitrator (the job sits in its waiting collection again) does not count: the
+// restarted controller treats such a job as not yet arbitrated (see c16AnnLive for the annotation-only reading).
+func c16Live(j c16JobView) bool {
+	return j.phase == 2 || ((j.phase == 0 || j.phase == 1) && j.ann && !j.stale)
+}
+func c16AnnLive(j c16JobView) bool { return j.phase == 2 || ((j.phase == 0 || j.phase == 1) && j.ann) }
 
-// the configured per-workload maximum: int value, at least 1, at most the replica count; unset = the documented defaults
+// the configured per-workload maximum: int value or percentage of the replicas rounded down, at least 1, at most the
+// replica count; unset = the documented defaults (10% above 10 replicas, 2 for 4..10, else 1).
+// ok=false: the configured string is not a number or percentage, no maximum can be computed.
+func c16WlMaxK(replicas, kind, v int) (m int, ok bool) {
+	switch kind {
+	case 2:
+		return 0, false
+	case 1:
+		m = v * replicas / 100
+		if m == 0 {
+			m = 1
+		}
+		if m > replicas {
+			m = replicas
+		}
+		return m, true
+	}
+	return c16WlMax(replicas, v), true
+}
+
 func c16WlMax(replicas, v int) int {
 	m := v
 	if v < 0 {
@@ -320,19 +405,57 @@ func c16WlMax(replicas, v int) int {
 	return m
 }
 
+// a replica is unavailable iff it is terminating, has finished (Failed / Succeeded) or is not Ready
+func c16PodUnavailable(p *corev1.Pod) bool {
+	if p.DeletionTimestamp != nil || p.Status.Phase == corev1.PodFailed || p.Status.Phase == corev1.PodSucceeded {
+		return true
+	}
+	for _, c := range p.Status.Conditions {
+		if c.Type == corev1.PodReady {
+			return c.Status != corev1.ConditionTrue
+		}
+	}
+	return true
+}
+
+// API-visible pod state: id -> unavailable; also cross-checks the generator's shadow copy
+func (w *c16World) apiUnavailable() map[int]bool {
+	l := &corev1.PodList{}
+	if err := w.c.List(context.TODO(), l); err != nil {
+		panic(err)
+	}
+	out := map[int]bool{}
+	for i := range l.Items {
+		var id int
+		fmt.Sscanf(l.Items[i].Name, "p%d", &id)
+		sh, ok := w.pods[id]
+		if !ok {
+			panic(fmt.Sprintf("verif: pod %d in the API but not in the shadow state", id))
+		}
+		out[id] = c16PodUnavailable(&l.Items[i])
+		if want := sh.term || sh.phase >= 2 || !sh.ready; want != out[id] {
+			panic(fmt.Sprintf("verif: pod %d shadow %+v disagrees with API object (unavailable=%v)", id, *sh, out[id]))
+		}
+	}
+	if len(out) != len(w.pods) {
+		panic("verif: shadow pod set differs from the API")
+	}
+	return out
+}
+
 type c16Counts struct {
 	global int
 	node   map[int]int
 	ns     map[int]int
 	migr   map[[2]int]int // (workload, namespace) -> distinct pods with a live job
-	unav   map[[2]int]int // (workload, namespace) -> pods not ready or with a live job
+	unav   map[[2]int]int // (workload, namespace) -> pods unavailable or with a live job
 }
 
-func (w *c16World) counts(v []c16JobView, only func(c16JobView) bool) c16Counts {
+func (w *c16World) counts(v []c16JobView, live func(c16JobView) bool, only func(c16JobView) bool, unavailable map[int]bool) c16Counts {
 	c := c16Counts{node: map[int]int{}, ns: map[int]int{}, migr: map[[2]int]int{}, unav: map[[2]int]int{}}
 	podLive := map[int]bool{}
 	for _, j := range v {
-		if !c16Live(j) || j.pod == 0 || (only != nil && !only(j)) {
+		if !live(j) || j.pod == 0 || (only != nil && !only(j)) {
 			continue
 		}
 		c.global++
@@ -348,7 +471,7 @@ func (w *c16World) counts(v []c16JobView, only func(c16JobView) bool) c16Counts 
 			if podLive[id] {
 				c.migr[k]++
 			}
-			if podLive[id] || (only == nil && !p.ready) {
+			if podLive[id] || (only == nil && unavailable[id]) {
 				c.unav[k]++
 			}
 		}
@@ -366,10 +489,10 @@ func c16Max(a, b int) int {
 func (w *c16World) oracleRound(before, after []c16JobView) {
 	h := w.h
 	wasLive := map[int]bool{}
-	wasWaiting := map[int]bool{}
+	wasWaitingPending := map[int]bool{}
 	for _, j := range before {
 		wasLive[j.id] = c16Live(j)
-		wasWaiting[j.id] = j.waiting
+		wasWaitingPending[j.id] = j.waiting && j.phase <= 1
 	}
 	// jobs admitted in this round that the code exempts from every limit: pod gone, or pod carries the evict annotation
 	bypass := func(j c16JobView) bool {
@@ -379,51 +502,91 @@ func (w *c16World) oracleRound(before, after []c16JobView) {
 		p, ok := w.pods[j.pod]
 		return !ok || p.ann
 	}
-	B, A, X := w.counts(before, nil), w.counts(after, nil), w.counts(after, bypass)
-	if w.mg > 0 && A.global > c16Max(w.mg, B.global)+X.global {
+	un := w.apiUnavailable() // pods do not change during a round
+	B, A, X := w.counts(before, c16Live, nil, un), w.counts(after, c16Live, nil, un), w.counts(after, c16Live, bypass, un)
+	if w.mg > 0 && !w.skipped(5) && A.global > c16Max(w.mg, B.global)+X.global {
 		h.Fail("C16:arb-global-exceeded", "live jobs %d > max(limit %d, before %d) + exempt %d", A.global, w.mg, B.global, X.global)
 	}
-	if w.mn > 0 {
+	if w.mn > 0 && !w.skipped(3) {
 		for n, c := range A.node {
 			if c > c16Max(w.mn, B.node[n])+X.node[n] {
 				h.Fail("C16:arb-node-exceeded", "node %d: %d pods with live jobs > max(limit %d, before %d) + exempt %d", n, c, w.mn, B.node[n], X.node[n])
 			}
 		}
 	}
-	if w.ms > 0 {
+	if w.ms > 0 && !w.skipped(4) {
 		for n, c := range A.ns {
 			if c > c16Max(w.ms, B.ns[n])+X.ns[n] {
 				h.Fail("C16:arb-namespace-exceeded", "namespace %d: %d live jobs > max(limit %d, before %d) + exempt %d", n, c, w.ms, B.ns[n], X.ns[n])
 			}
 		}
 	}
-	for k, c := range A.migr {
-		lim := c16WlMax(w.replicas[k[0]], w.mm)
-		if c > c16Max(lim, B.migr[k])+X.migr[k] {
-			h.Fail("C16:arb-workload-exceeded", "workload %d/ns %d: %d migrating pods > max(limit %d, before %d) + exempt %d", k[0], k[1], c, lim, B.migr[k], X.migr[k])
+	if !w.skipped(2) {
+		for k, c := range A.migr {
+			lim, _ := c16WlMaxK(w.replicas[k[0]], w.mmKind, w.mm) // not computable: 0, nothing may be admitted
+			if c > c16Max(lim, B.migr[k])+X.migr[k] {
+				h.Fail("C16:arb-workload-exceeded", "workload %d/ns %d: %d migrating pods > max(limit %d, before %d) + exempt %d", k[0], k[1], c, lim, B.migr[k], X.migr[k])
+			}
 		}
 	}
-	for k, c := range A.unav {
-		lim := c16WlMax(w.replicas[k[0]], w.mu)
-		if c > c16Max(lim, B.unav[k])+X.migr[k] {
-			h.Fail("C16:arb-unavailable-exceeded", "workload %d/ns %d: %d unavailable-or-migrating pods > max(limit %d, before %d) + exempt %d", k[0], k[1], c, lim, B.unav[k], X.migr[k])
+	if !w.skipped(1) {
+		for k, c := range A.unav {
+			lim, _ := c16WlMaxK(w.replicas[k[0]], w.muKind, w.mu)
+			if c > c16Max(lim, B.unav[k])+X.migr[k] {
+				h.Fail("C16:arb-unavailable-exceeded", "workload %d/ns %d: %d unavailable-or-migrating pods > max(limit %d, before %d) + exempt %d", k[0], k[1], c, lim, B.unav[k], X.migr[k])
+			}
 		}
 	}
 	// a job refused only for lack of headroom stays waiting and does not fail
 	for _, j := range after {
-		if !wasWaiting[j.id] || c16Live(j) {
+		if !wasWaitingPending[j.id] || c16Live(j) {
 			continue
 		}
 		p, ok := w.pods[j.pod]
 		if !ok {
 			continue
 		}
-		r := w.replicas[p.wl]
-		eligible := p.ann || (p.wl > 0 && r != 1 && r != c16WlMax(r, w.mm) && r != c16WlMax(r, w.mu))
-		if eligible && (j.phase >= 3 || !j.waiting) && !w.failUpd[c16JobName(j.id)] {
+		if w.eligible(p) && (j.phase >= 3 || !j.waiting) && !w.failUpd[c16JobName(j.id)] {
 			h.Fail("C16:arb-refused-not-waiting", "job %d (pod %d) was refused for lack of headroom but is phase %d waiting=%v", j.id, j.pod, j.phase, j.waiting)
 		}
 	}
+	// informational (no property clause): counting every "passed" annotation, including those that predate a restart
+	if w.mg > 0 && !w.skipped(5) && len(w.stale) > 0 {
+		Ba, Aa, Xa := w.counts(before, c16AnnLive, nil, un), w.counts(after, c16AnnLive, nil, un), w.counts(after, c16AnnLive, func(j c16JobView) bool {
+			for _, b := range before {
+				if b.id == j.id && c16AnnLive(b) {
+					return false
+				}
+			}
+			p, ok := w.pods[j.pod]
+			return !ok || p.ann
+		}, un)
+		if Aa.global > c16Max(w.mg, Ba.global)+Xa.global {
+			h.Tag("restart:annotation-count-exceeds-global-limit")
+		}
+	}
+}
+
+// the pod may be migrated as far as the rules that do not depend on headroom are concerned: it carries the evict
+// annotation, or it is controlled by a workload (unless bare pods are allowed), not terminating, and its workload has
+// more than one replica and more replicas than either per-workload maximum (unless that check is switched off)
+func (w *c16World) eligible(p *c16PodS) bool {
+	if p.ann {
+		return true
+	}
+	if (p.wl == 0 && !w.skipped(7)) || p.term {
+		return false
+	}
+	if w.skipped(6) || p.wl == 0 {
+		return true
+	}
+	r := w.replicas[p.wl]
+	mm, ok1 := c16WlMaxK(r, w.mmKind, w.mm)
+	mu, ok2 := c16WlMaxK(r, w.muKind, w.mu)
+	if !ok1 || !ok2 {
+		return false
+	}
+	return w.skipCER || (r != 1 && r != mm && r != mu)
 }
 
 func TestVerifC16Arb(t *testing.T) {
@@ -431,22 +594,85 @@ func TestVerifC16Arb(t *testing.T) {
 	if h == nil {
 		t.Skip("VERIF_OUT not set")
 	}
-	n := h.N(250, 3000)
+	n := h.N(300, 3600)
 	for idx := 0; idx < n; idx++ {
 		r := h.Begin(idx)
 		if r == nil {
 			continue
 		}
-		c16ArbCase(h, r)
+		c16ArbCase(h, r, idx%3 == 1)
 		h.End()
 	}
-	h.Close("one case = a cluster (5-10 pods over 3 nodes x 2 namespaces x 3 workloads with replicas in {1,3,5,8,12,20}, some not ready, 1/10 with the evict annotation, " +
-		"limits global/node/namespace in {nil,0,1,2,3}, per-workload {nil,0,1,2,3}), 0-4 pre-existing jobs (running / passed / finished / waiting / dangling pod), then 6-14 ops: " +
-		"create-through-Filter, arbitration round (1/6 with a failing Update), phase changes through the event handler, pod deletion, readiness flips. " +
+	h.Close("one case = a cluster (5-10 pods over 3 nodes x 2 namespaces x 3 workloads with replicas in {1,3,5,8,12,20}; pod states: Ready / not Ready, terminating " +
+		"(deletionTimestamp, Ready or not), phase Pending / Succeeded / Failed, 1/10 with the evict annotation; limits global/node/namespace in {nil,0,1,2,3}, per-workload " +
+		"nil / int / percent / malformed string, SkipEvictionGates subsets 1/5, SkipCheckExpectedReplicas 1/8), 0-4 pre-existing jobs (running / passed / finished / waiting / " +
+		"dangling pod / nil PodRef), then 6-14 ops: create-through-Filter, arbitration round (1/6 with a failing Update), phase changes through the event handler, pod deletion, " +
+		"readiness flips, pod becomes terminating / changes phase, controller restart (new arbitrator, Create event per job). Every third case is the headroom stream: one workload of " +
+		"4-8 replicas, small maxUnavailable, 1-3 replicas unavailable in the different ways, waiting jobs on the others. " +
 		"Non-trivial = some round both admitted a job and left one waiting")
 }
 
-func c16ArbCase(h *vHarness, r *vRand) {
+func (w *c16World) createPod(p *c16PodS) {
+	ctx := context.TODO()
+	w.pods[p.id] = p
+	pod := w.mkPod(p)
+	if err := w.c.Create(ctx, pod); err != nil {
+		panic(err)
+	}
+	if p.term {
+		if err := w.c.Delete(ctx, pod); err != nil { // finalizer present: stays, deletionTimestamp set
+			panic(err)
+		}
+	}
+	w.h.Op("pod %d %d %d %d %d %d %d %d", p.id, p.node, p.ns, p.wl, vB(p.ready), vB(p.ann), vB(p.term), p.phase)
+	w.h.Tag(fmt.Sprintf("pod:term=%d,phase=%d,ready=%d", vB(p.term), p.phase, vB(p.ready)))
+}
+
+func (w *c16World) getPod(id int) *corev1.Pod {
+	cur := &corev1.Pod{}
+	if err := w.c.Get(context.TODO(), types.NamespacedName{Namespace: c16Ns(w.pods[id].ns), Name: c16PodName(id)}, cur); err != nil {
+		panic(err)
+	}
+	return cur
+}
+
+// direct creation of a job object; kind 0 running, 1 pending+passed, 2 finished, 3 waiting
+func (w *c16World) createJob(r *vRand, id, pod, ns, kind int) {
+	ctx := context.TODO()
+	w.jobs[id] = &c16JobS{id: id, pod: pod, ns: ns}
+	j := w.mkJob(id, pod, ns)
+	phase, passed, waiting := 0, false, false
+	switch kind {
+	case 0:
+		phase = 2
+		passed = r.Bool()
+	case 1:
+		phase, passed = r.Intn(2), true
+	case 2:
+		phase = r.Range(3, 5)
+	default:
+		phase, waiting = r.Intn(2), true
+	}
+	if passed {
+		j.Annotations = map[string]string{AnnotationPassedArbitration: "true"}
+	}
+	if err := w.c.Create(ctx, j); err != nil {
+		panic(err)
+	}
+	j.Status.Phase = c16Phases[phase]
+	if err := w.c.Status().Update(ctx, j); err != nil {
+		panic(err)
+	}
+	if passed {
+		w.a.filter.markJobPassedArbitration(j.UID)
+	}
+	if waiting {
+		w.a.AddPodMigrationJob(j)
+	}
+	w.h.Op("job %d %d %d %d %d %d %d", id, pod, ns, phase, vB(passed), vB(passed), vB(waiting))
+}
+
+func c16ArbCase(h *vHarness, r *vRand, headroom bool) {
 	pickLim := func() int {
 		switch r.Intn(7) {
 		case 0:
@@ -457,36 +683,106 @@ func c16ArbCase(h *vHarness, r *vRand) {
 			return r.Range(1, 3)
 		}
 	}
-	mg, mn, ms, mm, mu := pickLim(), pickLim(), pickLim(), pickLim(), pickLim()
-	if r.Chance(1, 3) {
-		mu = r.Range(2, 4)
+	pickWl := func() (kind, v int) {
+		switch k := r.Intn(12); {
+		case k < 7:
+			return 0, pickLim()
+		case k < 11:
+			return 1, int(r.Pick([]int64{0, 10, 20, 25, 34, 40, 50, 60, 100, 150}))
+		default:
+			if r.Chance(1, 3) {
+				return 2, 0
+			}
+			return 0, pickLim()
+		}
 	}
+	var cfg c16Cfg
+	cfg.mg, cfg.mn, cfg.ms = pickLim(), pickLim(), pickLim()
+	cfg.mmKind, cfg.mm = pickWl()
+	cfg.muKind, cfg.mu = pickWl()
+	if cfg.muKind == 0 && r.Chance(1, 3) {
+		cfg.mu = r.Range(2, 4)
+	}
+	if r.Chance(1, 5) {
+		for g := 1; g <= 14; g++ {
+			if (g <= 7 && r.Chance(1, 4)) || (g > 7 && r.Chance(1, 8)) {
+				cfg.skip = append(cfg.skip, g)
+			}
+		}
+	}
+	cfg.skipCER = r.Chance(1, 8)
+	badStr := []string{"abc", "x%", ""}[r.Intn(3)]
 	replicas := map[int]int{}
-	h.Op("cfg %d %d %d %d %d", mg, mn, ms, mm, mu)
 	for wl := 1; wl <= 3; wl++ {
 		replicas[wl] = int(r.Pick([]int64{1, 3, 5, 5, 8, 8, 12, 20}))
+	}
+	if headroom {
+		// one workload whose unavailability budget is the binding limit
+		cfg.mg, cfg.mn, cfg.ms = -1, -1, -1
+		if r.Chance(1, 4) {
+			cfg.ms = r.Range(2, 3)
+		}
+		replicas[2] = r.Range(4, 8)
+		if r.Chance(1, 5) {
+			replicas[2] = 12
+		}
+		cfg.mmKind, cfg.mm = 0, -1
+		if r.Chance(1, 3) {
+			cfg.mm = r.Range(1, 3)
+		}
+		switch r.Intn(4) {
+		case 0:
+			cfg.muKind, cfg.mu = 1, int(r.Pick([]int64{20, 25, 34, 40, 50}))
+		case 1:
+			cfg.muKind, cfg.mu = 0, -1
+		default:
+			cfg.muKind, cfg.mu = 0, r.Range(1, 3)
+		}
+		if !r.Chance(1, 10) {
+			cfg.skip = nil
+		}
+		cfg.skipCER = false
+	}
+	h.Op("cfg %d %d %d %d %d", cfg.mg, cfg.mn, cfg.ms, cfg.mm, cfg.mu)
+	op := fmt.Sprintf("cfgx %d %d %d %d", cfg.mmKind, cfg.muKind, vB(cfg.skipCER), len(cfg.skip))
+	for _, g := range cfg.skip {
+		op += fmt.Sprintf(" %d", g)
+	}
+	h.Op("%s", op)
+	h.Tag(fmt.Sprintf("cfg:mmKind=%d", cfg.mmKind))
+	h.Tag(fmt.Sprintf("cfg:muKind=%d", cfg.muKind))
+	for _, g := range cfg.skip {
+		h.Tag(fmt.Sprintf("cfg:skipgate=%d", g))
+	}
+	for wl := 1; wl <= 3; wl++ {
 		h.Op("wl %d %d", wl, replicas[wl])
 	}
-	w := c16NewWorld(h, mg, mn, ms, mm, mu, replicas)
+	w := c16NewWorld(h, cfg, badStr, replicas)
 	ctx := context.TODO()
-	np := r.Range(5, 10)
-	for id := 1; id <= np; id++ {
-		p := &c16PodS{id: id, node: r.Range(1, 3), ns: r.Range(1, 2), wl: r.Range(1, 3), ready: !r.Chance(1, 6), ann: r.Chance(1, 10)}
-		if r.Chance(1, 12) {
-			p.node = 0
+	// a pod state: how a replica can be unavailable
+	podState := func(p *c16PodS, unavailable bool) {
+		p.ready = true
+		if !unavailable {
+			return
 		}
-		if r.Chance(1, 12) {
-			p.wl = 0
+		switch r.Intn(7) {
+		case 0:
+			p.ready = false
+		case 1:
+			p.term = true // terminating, still Ready
+		case 2:
+			p.term, p.ready = true, false
+		case 3:
+			p.phase, p.ready = 3, r.Chance(1, 3) // Failed (a stale Ready condition may remain)
+		case 4:
+			p.phase, p.ready = 2, r.Chance(1, 3) // Succeeded
+		case 5:
+			p.phase, p.ready = 1, false // Pending
+		default:
+			p.phase, p.ready, p.term = r.Range(1, 3), false, true
 		}
-		if r.Chance(1, 2) { // concentrate so that limits bite
-			p.node, p.ns, p.wl = 1, 1, 2
-		}
-		w.pods[id] = p
-		if err := w.c.Create(ctx, w.mkPod(p)); err != nil {
-			panic(err)
-		}
-		h.Op("pod %d %d %d %d %d %d", id, p.node, p.ns, p.wl, vB(p.ready), vB(p.ann))
 	}
+	np := r.Range(5, 10)
 	nextJob := 1
 	hasOpenJob := func(pod int) bool {
 		for _, j := range w.view() {
@@ -496,72 +792,80 @@ func c16ArbCase(h *vHarness, r *vRand) {
 		}
 		return false
 	}
-	// pre-existing jobs, created directly
-	for k, nj := 0, r.Intn(5); k < nj; k++ {
-		pod := r.Range(1, np)
-		ns := w.pods[pod].ns
-		kind := r.Intn(6) // 0 running, 1 pending+passed, 2 finished, 3 waiting, 4 dangling pod ref, 5 nil pod ref
-		if kind == 4 {
-			pod, ns = 90+k, 1
-		} else if kind == 5 {
-			pod, ns = 0, 0
-		} else if kind != 2 && hasOpenJob(pod) {
-			continue // at most one open job per pod (what creation through Filter guarantees)
+	if headroom {
+		np = r.Range(4, 8)
+		nun := r.Range(1, 3)
+		for id := 1; id <= np; id++ {
+			p := &c16PodS{id: id, node: r.Range(1, 3), ns: 1, wl: 2}
+			podState(p, id <= nun)
+			if r.Chance(1, 20) {
+				p.ann = true
+			}
+			w.createPod(p)
 		}
-		id := nextJob
-		nextJob++
-		w.jobs[id] = &c16JobS{id: id, pod: pod, ns: ns}
-		j := w.mkJob(id, pod, ns)
-		phase, passed, waiting := 0, false, false
-		switch kind {
-		case 0:
-			phase = 2
-			passed = r.Bool()
-		case 1:
-			phase, passed = r.Intn(2), true
-		case 2:
-			phase = r.Range(3, 5)
-		default:
-			phase, waiting = r.Intn(2), true
+		// jobs: sometimes one already running on an unavailable replica (counts once), waiting jobs on the others
+		if r.Chance(1, 3) {
+			w.createJob(r, nextJob, 1, 1, r.Intn(2))
+			nextJob++
 		}
-		if passed {
-			j.Annotations = map[string]string{AnnotationPassedArbitration: "true"}
+		for id := nun + 1; id <= np; id++ {
+			if r.Chance(2, 3) {
+				w.createJob(r, nextJob, id, 1, 3)
+				nextJob++
+			}
 		}
-		if err := w.c.Create(ctx, j); err != nil {
-			panic(err)
+	} else {
+		for id := 1; id <= np; id++ {
+			p := &c16PodS{id: id, node: r.Range(1, 3), ns: r.Range(1, 2), wl: r.Range(1, 3), ann: r.Chance(1, 10)}
+			podState(p, r.Chance(1, 5))
+			if r.Chance(1, 12) {
+				p.node = 0
+			}
+			if r.Chance(1, 12) {
+				p.wl = 0
+			}
+			if r.Chance(1, 2) { // concentrate so that limits bite
+				p.node, p.ns, p.wl = 1, 1, 2
+			}
+			w.createPod(p)
 		}
-		j.Status.Phase = c16Phases[phase]
-		if err := w.c.Status().Update(ctx, j); err != nil {
-			panic(err)
+		// pre-existing jobs, created directly
+		for k, nj := 0, r.Intn(5); k < nj; k++ {
+			pod := r.Range(1, np)
+			ns := w.pods[pod].ns
+			kind := r.Intn(6) // 0 running, 1 pending+passed, 2 finished, 3 waiting, 4 dangling pod ref, 5 nil pod ref
+			if kind == 4 {
+				pod, ns = 90+k, 1
+			} else if kind == 5 {
+				pod, ns = 0, 0
+			} else if kind != 2 && hasOpenJob(pod) {
+				continue // at most one open job per pod (what creation through Filter guarantees)
+			}
+			w.createJob(r, nextJob, pod, ns, kind)
+			nextJob++
 		}
-		if passed {
-			w.a.filter.markJobPassedArbitration(j.UID)
+	}
+	podIDs := func() []int {
+		ids := []int{}
+		for id := range w.pods {
+			ids = append(ids, id)
 		}
-		if waiting {
-			w.a.AddPodMigrationJob(j)
-		}
-		h.Op("job %d %d %d %d %d %d %d", id, pod, ns, phase, vB(passed), vB(passed), vB(waiting))
+		sort.Ints(ids)
+		return ids
 	}
 	admittedAndWaiting := false
 	for s, steps := 0, r.Range(6, 14); s < steps; s++ {
-		switch k := r.Intn(10); {
-		case k < 4: // a plugin wants to migrate a pod: Filter, then create the job and hand it to the arbitrator
-			ids := []int{}
-			for id := range w.pods {
-				ids = append(ids, id)
-			}
+		switch k := r.Intn(20); {
+		case k < 7: // a plugin wants to migrate a pod: Filter, then create the job and hand it to the arbitrator
+			ids := podIDs()
 			if len(ids) == 0 {
 				continue
 			}
-			sort.Ints(ids)
 			pod := ids[r.Intn(len(ids))]
 			id := nextJob
 			nextJob++
 			h.Op("create %d %d", id, pod)
-			cur := &corev1.Pod{}
-			if err := w.c.Get(ctx, types.NamespacedName{Namespace: c16Ns(w.pods[pod].ns), Name: c16PodName(pod)}, cur); err != nil {
-				panic(err)
-			}
+			cur := w.getPod(pod)
 			open := hasOpenJob(pod)
 			var ok bool
 			if h.Guard(func() { ok = w.a.Filter(cur) }) {
@@ -582,7 +886,7 @@ func c16ArbCase(h *vHarness, r *vRand) {
 				}
 				w.a.AddPodMigrationJob(j)
 			}
-		case k < 7: // arbitration round
+		case k < 13: // arbitration round
 			before := w.view()
 			w.failUpd = map[string]bool{}
 			fails := []int{}
@@ -609,10 +913,15 @@ func c16ArbCase(h *vHarness, r *vRand) {
 				op += fmt.Sprintf(" %d", o)
 			}
 			h.Op("%s", op)
+			for _, j := range w.view() { // re-arbitrated (passed again or failed): the annotation is current again
+				if w.stale[j.id] && !j.waiting {
+					delete(w.stale, j.id)
+				}
+			}
 			after := w.view()
 			w.emitState(after)
 			w.oracleRound(before, after)
-			adm, wait := 0, 0
+			adm, wait, failed := 0, 0, 0
 			for i, j := range after {
 				if c16Live(j) && !c16Live(before[i]) {
 					adm++
@@ -620,13 +929,21 @@ func c16ArbCase(h *vHarness, r *vRand) {
 				if j.waiting {
 					wait++
 				}
+				if j.phase == 4 && before[i].phase != 4 {
+					failed++
+				}
 			}
 			h.Tag(fmt.Sprintf("round:admitted=%d", adm))
+			h.Tag(fmt.Sprintf("round:failed=%d", failed))
+			if wait > 3 {
+				wait = 3
+			}
+			h.Tag(fmt.Sprintf("round:stillwaiting=%d", wait))
 			if adm > 0 && wait > 0 {
 				admittedAndWaiting = true
 			}
 			w.failUpd = map[string]bool{}
-		case k < 9: // the migration controller moves a passed job on; the handler sees the update
+		case k < 16: // the migration controller moves a passed job on; the handler sees the update
 			var cand []c16JobView
 			for _, j := range w.view() {
 				if !j.waiting && j.phase <= 2 {
@@ -652,35 +969,69 @@ func c16ArbCase(h *vHarness, r *vRand) {
 			w.hd.Update(ctx, event.UpdateEvent{ObjectNew: obj}, w.q)
 			h.Op("phase %d %d", j.id, np)
 			w.emitState(w.view())
-		default:
-			ids := []int{}
-			for id := range w.pods {
-				ids = append(ids, id)
+		case k < 17: // the controller restarts: empty waiting collection and arbitrated map, one Create event per job in the API
+			l := &v1alpha1.PodMigrationJobList{}
+			if err := w.c.List(ctx, l); err != nil {
+				panic(err)
 			}
+			for _, j := range w.view() {
+				if j.phase <= 1 && j.ann {
+					w.stale[j.id] = true
+				}
+			}
+			w.newArb()
+			for i := range l.Items {
+				w.hd.Create(ctx, event.CreateEvent{Object: &l.Items[i]}, w.q)
+			}
+			h.Op("restart")
+			h.Tag("op:restart")
+			w.emitState(w.view())
+		default:
+			ids := podIDs()
 			if len(ids) <= 2 {
 				continue
 			}
-			sort.Ints(ids)
 			pod := ids[r.Intn(len(ids))]
-			cur := &corev1.Pod{}
-			if err := w.c.Get(ctx, types.NamespacedName{Namespace: c16Ns(w.pods[pod].ns), Name: c16PodName(pod)}, cur); err != nil {
-				panic(err)
-			}
-			if r.Chance(1, 3) {
-				if err := w.c.Delete(ctx, cur); err != nil {
+			cur := w.getPod(pod)
+			p := w.pods[pod]
+			switch c := r.Intn(6); {
+			case c < 1: // the pod goes away for good
+				cur.Finalizers = nil
+				if err := w.c.Update(ctx, cur); err != nil {
 					panic(err)
+				}
+				if !p.term {
+					if err := w.c.Delete(ctx, cur); err != nil {
+						panic(err)
+					}
 				}
 				delete(w.pods, pod)
 				h.Op("delpod %d", pod)
-			} else {
-				p := w.pods[pod]
+			case c < 3:
 				p.ready = !p.ready
-				upd := w.mkPod(p)
-				upd.ResourceVersion = cur.ResourceVersion
-				if err := w.c.Status().Update(ctx, upd); err != nil { // readiness lives in the status subresource
+				cur.Status = w.mkPod(p).Status
+				if err := w.c.Status().Update(ctx, cur); err != nil { // readiness lives in the status subresource
 					panic(err)
 				}
 				h.Op("ready %d %d", pod, vB(p.ready))
+			case c < 5: // deletion requested: terminating, Ready condition unchanged
+				if p.term {
+					continue
+				}
+				if err := w.c.Delete(ctx, cur); err != nil {
+					panic(err)
+				}
+				p.term = true
+				h.Op("term %d", pod)
+				h.Tag("op:term")
+			default:
+				p.phase = (p.phase + r.Range(1, 3)) % 4
+				cur.Status = w.mkPod(p).Status
+				if err := w.c.Status().Update(ctx, cur); err != nil {
+					panic(err)
+				}
+				h.Op("pphase %d %d", pod, p.phase)
+				h.Tag(fmt.Sprintf("op:pphase=%d", p.phase))
 			}
 		}
 	}
